@@ -443,6 +443,11 @@ class PE:
                         return C(gg.init.v)
                     break
         if loc[0].startswith("@"):
+            cv = self._const_aggregate(loc[0][1:], loc[1])
+            if cv is not None:
+                state.trace.append(("gload", loc[0][1:]))
+                return cv
+        if loc[0].startswith("@"):
             g = self.global_bytes(loc[0][1:])
             if g is not None:
                 state.trace.append(("gload", loc[0][1:]))
@@ -463,6 +468,36 @@ class PE:
                     state.mem[k] = TOP
             return
         state.mem[loc] = val
+
+    def _const_aggregate(self, name, path):
+        """element of a constant global array / struct initialiser addressed by a concrete path, as a constant expression"""
+        home = getattr(self, "home_module", None)
+        g = None
+        for m in ([home] if home is not None else []) + [x for x in self.prog.modules if x is not home]:
+            g = m.globals.get(name)
+            if g is not None:
+                break
+        if g is None or not g.constant or g.init is None or g.init.kind not in ("array", "struct"):
+            return None
+        v = g.init
+        for q in path:
+            if isinstance(q, tuple) and q[0] == "i":
+                k = q[1]
+            elif isinstance(q, tuple) and q[0] == "f":
+                k = q[2]
+            else:
+                k = q
+            if not isinstance(k, int) or v.kind not in ("array", "struct") or v.args is None or not (0 <= k < len(v.args)):
+                return None
+            v = v.args[k]
+        # trailing first-member steps were normalised away: descend to the first scalar
+        while v.kind in ("array", "struct") and v.args:
+            v = v.args[0]
+        if v.kind == "int":
+            return C(v.v)
+        if v.kind == "null":
+            return C(0)
+        return None
 
     def global_bytes(self, name):
         """bytes of a constant global (string literal / constant char array), or None"""
